@@ -312,6 +312,27 @@ def run(ctx: Context, rep) -> None:
     rep.ob("C05.same-walk", bool(chk) and not missed, loc=wm.loc(),
            where=wm.qualname, construct="write_config -> check()",
            message="the consistency check looks at the committed state")
+    from sa.rules import shared
+    shared.check_no_memo(ctx, rep, "C05.memo")
+    # the "current" digests of the description are computed now, from the file
+    from sa import pathval
+    cur = ctx.fn(f"{DW}.current_metadata_checksums")
+    rets = pathval.returned_on(ctx, cur, {})
+    ok = rets != pathval.RAISES and bool(rets) and all(
+        isinstance(r, ast.Call) and ctx.is_call(cur, r, "utils.hash_checksums")
+        for r in rets)
+    hashes_ok = ok and all("hash_checksum_algorithms" in ast.unparse(
+        ctx.arg(r, 1, "hashes") or ast.Constant(0)) for r in rets)
+    rep.ob("C05.cover", ok and hashes_ok, loc=cur.loc(), where=cur.qualname,
+           construct="returns " + "; ".join(short(r, 70) for r in rets)
+           if isinstance(rets, list) else "raises",
+           message="every result is hash_checksums(<description file>, "
+           "<configured algorithms>) computed in this call; a remembered "
+           "value would hide a modification made since")
+    # check() verifies what the walk enumerates: the walk must be complete
+    from sa.rules.c02 import check_walk
+    check_walk(ctx, rep, "C05.walk")
+
 
 
 _DW = "src/sedpack/io/dataset_writing.py"
